@@ -19,17 +19,19 @@ import (
 // needed for that (alt:ALL differs from alt:ALL-<sig>). Any other wrong answer on
 // the same input is a VIOLATION.
 var quirkBySig = map[string]om.Quirks{
-	"c08-result-holes-undefined":     {ResultHolesUndefined: true},
-	"c08-splice-noargs-deletes-all":  {SpliceNoArgsDeletesAll: true},
-	"c08-reduce-only-holes":          {ReduceOnlyHolesUndefined: true},
-	"c08-reduceright-string-index":   {ReduceRightStringIndex: true},
-	"c08-lastindexof-clamp":          {LastIndexOfClamp: true},
-	"c08-index-parseint":             {ArrayIndexParseInt: true},
-	"c08-array-length-same-value":    {ArrayLengthSameValueRejects: true},
-	"c08-reverse-delete-first":       {ReverseDeleteFirst: true},
-	"c08-join-separator-first":       {JoinSeparatorFirst: true},
-	"c08-lastindexof-converts-empty": {LastIndexOfConvertsOnEmpty: true},
-	"c08-callable-before-length":     {CallableBeforeLength: true},
+	"c08-result-holes-undefined":       {ResultHolesUndefined: true},
+	"c08-splice-noargs-deletes-all":    {SpliceNoArgsDeletesAll: true},
+	"c08-reduce-only-holes":            {ReduceOnlyHolesUndefined: true},
+	"c08-reduceright-string-index":     {ReduceRightStringIndex: true},
+	"c08-lastindexof-clamp":            {LastIndexOfClamp: true},
+	"c08-index-parseint":               {ArrayIndexParseInt: true},
+	"c08-array-length-same-value":      {ArrayLengthSameValueRejects: true},
+	"c08-reverse-delete-first":         {ReverseDeleteFirst: true},
+	"c08-join-separator-first":         {JoinSeparatorFirst: true},
+	"c08-lastindexof-converts-empty":   {LastIndexOfConvertsOnEmpty: true},
+	"c08-callable-before-length":       {CallableBeforeLength: true},
+	"c08-reverse-sort-return-raw-this": {ReturnRawThis: true},
+	"c08-length-converted-once":        {LengthConvertedOnce: true},
 }
 
 func merge(a, b om.Quirks) om.Quirks {
@@ -46,6 +48,8 @@ func merge(a, b om.Quirks) om.Quirks {
 		JoinSeparatorFirst:          a.JoinSeparatorFirst || b.JoinSeparatorFirst,
 		LastIndexOfConvertsOnEmpty:  a.LastIndexOfConvertsOnEmpty || b.LastIndexOfConvertsOnEmpty,
 		CallableBeforeLength:        a.CallableBeforeLength || b.CallableBeforeLength,
+		ReturnRawThis:               a.ReturnRawThis || b.ReturnRawThis,
+		LengthConvertedOnce:         a.LengthConvertedOnce || b.LengthConvertedOnce,
 	}
 }
 
